@@ -345,6 +345,57 @@ func h1Oracles(env *Env, c *H1Cfg, st *h1State, hr *h1Run, runIdx int, stats sim
 				env.Violate("C05", "late-return", "run/"+c.Mode, "triggering had to stop by %s, completion timeout %s, but Do returned at %s (deadline %s; cancelled=%v timeout_reported=%v)",
 					dur(stop), dur(c.WaitTimeoutNs), dur(g.DoReturnedNs), dur(deadline), g.Cancelled, timedOut)
 			}
+			// the max-iterations limit ends the run as well: once N iterations have started, the next request finds the
+			// limit (a request comes within one tick of a worker being free; a users-mode worker asks again when its
+			// body ends), after which only the in-flight iterations are waited for
+			if c.MaxIterations > 0 && uint64(len(g.Bodies)) >= c.MaxIterations && stats.Stalls == 0 && c.SlowOutputNs == 0 {
+				flows, maxTick, pauses := false, int64(0), int64(0)
+				switch {
+				case c.Mode == "users":
+					flows = true
+				case c.Mode == "constant" && c.TickNs > 0 && c.TickRate >= 1:
+					flows, maxTick = true, c.TickNs
+				case c.Mode == "file" && c.File != nil:
+					flows = true
+					for _, fs := range c.File.Stages {
+						if fs.Mode == "users" && fs.UsersConc > 0 {
+							continue
+						}
+						if fs.Mode == "constant" && fs.TickNs > 0 && fs.TickRate >= 1 {
+							maxTick = max(maxTick, fs.TickNs)
+							continue
+						}
+						flows = false
+					}
+					pauses = int64(len(c.File.Stages)) * 50 * ms
+				}
+				begins := make([]int64, 0, len(g.Bodies))
+				var longest int64
+				for _, b := range g.Bodies {
+					begins = append(begins, b.BeginNs)
+					if !b.Ended || len(b.CleanupRuns) < len(b.Registered) {
+						flows = false
+						break
+					}
+					end := b.EndNs
+					for _, cr := range b.CleanupRuns {
+						if cr.Idx >= 0 && cr.Idx < len(b.Plan.Cleanups) {
+							end = max(end, cr.T+b.Plan.Cleanups[cr.Idx].SleepNs)
+						}
+					}
+					longest = max(longest, end-b.BeginNs)
+				}
+				if flows {
+					sort.Slice(begins, func(i, j int) bool { return begins[i] < begins[j] })
+					tN := begins[c.MaxIterations-1]
+					dl := tN + longest + maxTick + pauses + c.WaitTimeoutNs + teardown + slack
+					if g.DoReturnedNs > dl {
+						env.Violate("C05", "late-return-after-limit", "run/"+c.Mode, "iteration %d of max-iterations %d began at %s, bodies take at most %s, ticks come every %s at most, completion timeout %s: Do had to return by %s, it returned at %s",
+							c.MaxIterations, c.MaxIterations, dur(tN), dur(longest), dur(maxTick), dur(c.WaitTimeoutNs), dur(dl), dur(g.DoReturnedNs))
+					}
+					env.Hit("h1.return_after_limit_checked")
+				}
+			}
 			if timedOut {
 				// the completion timeout may only be reported once it has really expired: the wait for in-flight
 				// iterations starts when triggering stops, not before
